@@ -714,7 +714,7 @@ fn run_case(ctx: &CaseCtx, stats: &mut Stats, out: &mut Vec<Violation>, harness:
             }
         }
         // ---- variants must agree with each other (items only: logging differs for sugar forms)
-        if entry.variants.len() > 1 {
+        if entry.variants.len() > 1 && !entry.variants[0].0.starts_with("multi") {
             if let Some(p0) = &primary_calls[0] {
                 let items0: Vec<Option<Item>> = p0.iter().map(|c| c.1.clone()).collect();
                 for vi in 1..entry.variants.len() {
